@@ -97,6 +97,12 @@ scen('shared-table-two-confs',
      mk.class_src('K', ['w = Int(1)', 'v = Ref(w.chooses(TABLE), default=0)', 'z = Int(1)'], dict(o or {}, endianness='little', search_buffer_length=4)) +
      mk.class_src('K2', ['h = Int(1)', 'w = Int(1)', 'v = Ref(w.chooses(TABLE), default=0)'], o),
      [b'\x01\x01\x02\x09', b'\x02\x01\x02\x03\x04\x09', b'\x03xyab\x09'], [{}, {'w': 1, 'v': 0x0102}])
+# same-named classes from ONE class statement (a factory): their generated code is textually identical - the separator lives in the field
+# object, not in the code - so the later ones are served by one cached module; each must still use its own fields
+scen('factory-siblings',
+     lambda o: 'def make(sep, opts=%r):\n    class K(Packet):\n        __bisturi__ = dict(opts or {})\n        d = Data(until_marker=sep)\n        z = Int(1)\n    return K\n\n\n'
+               '_first = make(b"|")\nK = make(b"\\n")\nK2 = make(b";")\n' % (o,),
+     [b'ab\n;Q', b'\n\x01', b'c;d\n\x02'], [{}, {'d': b'x;y', 'z': 4}])
 scen('expr', lambda o: mk.class_src('K', ['p = Int(1)', 'n = Int(1)', 'x = Int(1)', 'd = Data(p + (n + x))', 'l = Int(1).repeated((n * 2) - x, when=(p + n) > x)', 'z = Int(1)'], o),
      [b'\x01\x01\x01ABC\x05\x09', b'\x00\x02\x00XY\x01\x02\x03\x04\x07', b'\x00\x00\x00\x08'], [{}, {'p': 1, 'd': b'q'}])
 scen('positioned', lambda o: mk.class_src('K', ['n = Int(1)', 'd = Data(2).at(n)', 'e = Em().aligned(4)'], o),
